@@ -338,6 +338,15 @@ class Version:
         raise NotImplementedError(log_message)
 
     def get_b_tree_root_page(self, b_tree_page_number):
+
+        # A b-tree is a tree: while one is being built no page may be reached twice (checked in BTreePage.__init__)
+        self._b_tree_pages_being_built = set()
+        try:
+            return self._get_b_tree_root_page(b_tree_page_number)
+        finally:
+            self._b_tree_pages_being_built = None
+
+    def _get_b_tree_root_page(self, b_tree_page_number):
         """
 
 
